@@ -395,3 +395,47 @@ Definition iso_by (h : N -> N) (a b : qset) : Prop :=
   (forall n n', nodes_of a n -> nodes_of a n' -> h n = h n' -> n = n') /\
   (forall n, nodes_of a n -> is_bnode n = false -> h n = n) /\
   (forall q, In q b <-> In q (map (rename_quad h) a)).
+
+(* ------------------------------------------------------------------ *)
+(* The property statements without the conventions of the correspondence suite: no bound on the
+   number of labels of a document, no tag triples.  Only what is real well-formedness is asked:
+   constants are constants (numbers below 1000 that are not node ids, or odd numbers), and a label
+   KEPT by the parser (HexTuples, JSON-LD, preserve_bnode_ids) is numbered below 100 so that
+   [lab_node] stays in the range 100..199 this development reserves for BNode(label). *)
+Definition stable_b (n : N) : bool := (n <? 1000) || N.odd n.
+Definition is_identity (d : doc) : bool := match call_disc d with Identity => true | Fresh => false end.
+Definition dterm_wf (kept : bool) (t : dterm) : bool :=
+  match t with DC n => const_ok n | DL l => if kept then l <? 100 else true end.
+Definition dgraph_wf (kept : bool) (g : dgraph) : bool :=
+  match g with GD => true | GC c => const_ok c | GL l => if kept then l <? 100 else true end.
+Definition stmt_wf (kept : bool) (s : stmt) : bool :=
+  let '(s0, p, o, g) := s in dterm_wf kept s0 && const_ok p && dterm_wf kept o && dgraph_wf kept g.
+Definition doc_wf (d : doc) : bool :=
+  stable_b (d_target d) && forallb (stmt_wf (is_identity d)) (d_stmts d) && opts_ok d.
+Definition init_wf (init : qset) : bool :=
+  forallb (fun q => stable_b (q_s q) && stable_b (q_p q) && stable_b (q_o q) && stable_b (q_g q)) init.
+
+(* call by call: only adds, and RDF merge under the dict the call started with *)
+Fixpoint merges_run (fresh : N -> N -> N) (j : N) (es : envs) (prev : qset) (ds : list doc) : Prop :=
+  match ds with
+  | [] => True
+  | d :: r =>
+      let es' := fst (call_step (fresh j) es prev d) in
+      let now := snd (call_step (fresh j) es prev d) in
+      incl prev now /\ rdf_merge (known_of es d) prev (d_target d) (d_stmts d) now /\
+      merges_run fresh (N.succ j) es' now r
+  end.
+
+(* private calls: no call re-uses a node an earlier call made ([used]) *)
+Fixpoint scoped_run (fresh : N -> N -> N) (j : N) (used : list N) (prev : qset) (ds : list doc) : Prop :=
+  match ds with
+  | [] => True
+  | d :: r =>
+      let now := snd (call_step (fresh j) [] prev d) in
+      exists f : N -> N,
+        (forall l l', In l (labels_of (d_stmts d)) -> In l' (labels_of (d_stmts d)) -> f l = f l' -> l = l') /\
+        (forall l, In l (labels_of (d_stmts d)) ->
+           ~ In (f l) used /\ forall q, In q prev -> occurs (f l) q = false) /\
+        (forall q, In q now <-> In q prev \/ In q (map (sub_stmt f (d_target d)) (d_stmts d))) /\
+        scoped_run fresh (N.succ j) (used ++ map f (labels_of (d_stmts d))) now r
+  end.
